@@ -517,9 +517,11 @@ def read_ndjson(path):
     return out
 
 
-def conform(vdir, mode, cases_path, out_path, *args, timeout=3000):
+def conform(vdir, mode, cases_path, out_path, *args, timeout=3000, fresh=False):
     cmd = [os.path.join(vdir, "conform"), mode, cases_path, out_path] + [str(a) for a in args]
     env = dict(os.environ)
+    if fresh:
+        env["NV_FRESH"] = "1"
     env["ASAN_OPTIONS"] = "detect_leaks=0:abort_on_error=0:halt_on_error=1:allocator_may_return_null=1"
     env["UBSAN_OPTIONS"] = "print_stacktrace=0:halt_on_error=1"
     p = subprocess.run(cmd, env=env, stdout=subprocess.PIPE, stderr=subprocess.STDOUT, timeout=timeout)
@@ -528,7 +530,7 @@ def conform(vdir, mode, cases_path, out_path, *args, timeout=3000):
     return read_ndjson(out_path)
 
 
-def conform_parallel(vdir, mode, cases, rundir, tag, *args, nproc=None, timeout=3000):
+def conform_parallel(vdir, mode, cases, rundir, tag, *args, nproc=None, timeout=3000, fresh=False):
     """Split cases over processes; returns all observation records."""
     from concurrent.futures import ThreadPoolExecutor
     nproc = nproc or min(NCPU, max(1, len(cases) // 200))
@@ -537,7 +539,7 @@ def conform_parallel(vdir, mode, cases, rundir, tag, *args, nproc=None, timeout=
         cp = os.path.join(rundir, "%s.cases.%d" % (tag, i))
         op = os.path.join(rundir, "%s.obs.%d" % (tag, i))
         write_cases(cp, chunks[i])
-        return conform(vdir, mode, cp, op, *args, timeout=timeout)
+        return conform(vdir, mode, cp, op, *args, timeout=timeout, fresh=fresh)
     out = []
     with ThreadPoolExecutor(nproc) as ex:
         for r in ex.map(one, range(nproc)):
